@@ -11,25 +11,29 @@ Open Scope Z_scope.
 Section LoopR.
   Variables (sf : bool) (ntext : Z -> pystr) (stext : Z -> Z -> pystr) (rlist : Z -> list nat) (rsymt : nat -> pystr) (env : wenv).
   Hypothesis Hsf : e_smiles env = sf.
-  Notation ring_pure := (ring_pure rsymt).
+  Notation ring_pureA := (RingDefs.ring_pure rsymt).
+  Notation ring_pure := (RingDefs.ring_pure rsymt false).
   Notation wtextR := (wtextR sf ntext stext rlist rsymt).
   Notation wbranchesR := (wbranchesR sf ntext stext rlist rsymt).
   Notation whead := (whead sf ntext stext).
   Notation tree_envR := (tree_envR ntext stext rlist rsymt env).
   Notation forest_envR := (forest_envR ntext stext rlist rsymt env).
 
+  Lemma after_pct_snoc trc m : after_pct (trc ++ [m]) = after_pct trc || (10 <=? m)%nat.
+  Proof. unfold after_pct. rewrite existsb_app. cbn [existsb]. now rewrite orb_false_r. Qed.
   Lemma ring_loop_pure : forall ris mk out trc,
     (forall ri, In ri ris -> exists bond, nth_error (e_tr env) (ri - 1) = Some bond /\ e_rsym env (fst bond) (snd bond) = Ok (rsymt ri)) ->
     ring_loop env (mk, out, trc) ris
-    = Ok (let '(mk', tx, tr) := ring_pure mk ris in (mk', out ++ tx, trc ++ tr)).
+    = Ok (let '(mk', tx, tr) := ring_pureA (after_pct trc) mk ris in (mk', out ++ tx, trc ++ tr)).
   Proof.
     induction ris as [|ri r IH]; intros mk out trc H; cbn [ring_loop RingDefs.ring_pure].
     - now rewrite !app_nil_r.
     - destruct (H ri (or_introl eq_refl)) as [bond [Hb Hs]].
       unfold ring_step. rewrite Hb. cbn [of_option bind]. rewrite Hs. cbn [bind].
-      destruct (mk_get ri mk) as [m|]; cbn [bind]; rewrite IH by (intros x Hx; apply H; now right).
-      + destruct (ring_pure (mk_del ri mk) r) as [[mk2 t2] tr2]. rewrite <- !app_assoc. reflexivity.
-      + destruct (ring_pure (mk ++ [(ri, get_ring_marker (map snd mk))]) r) as [[mk2 t2] tr2]. rewrite <- !app_assoc. reflexivity.
+      destruct (mk_get ri mk) as [m|]; cbn [bind]; rewrite IH by (intros x Hx; apply H; now right); rewrite after_pct_snoc.
+      + destruct (ring_pureA (after_pct trc || (10 <=? m)%nat) (mk_del ri mk) r) as [[mk2 t2] tr2]. rewrite <- !app_assoc. reflexivity.
+      + destruct (ring_pureA (after_pct trc || (10 <=? get_ring_marker (map snd mk))%nat) (mk ++ [(ri, get_ring_marker (map snd mk))]) r) as [[mk2 t2] tr2].
+        rewrite <- !app_assoc. reflexivity.
   Qed.
 
   Definition mt_push (k : Z) (trc : list nat) (mt : list (Z * list nat)) : list (Z * list nat) :=
@@ -62,7 +66,7 @@ Section LoopR.
                  | None => Ok (mk, out1, [])
                  end = Ok (let '(mk', tx, tr) := ring_pure mk (rlist k) in (mk', out1 ++ tx, tr))).
     { destruct (dl_get k (e_rings env)) as [ris|].
-      - subst ris. rewrite ring_loop_pure by exact Hrs. destruct (ring_pure mk (rlist k)) as [[a b] c]. reflexivity.
+      - subst ris. rewrite ring_loop_pure by exact Hrs. change (after_pct []) with false. destruct (ring_pure mk (rlist k)) as [[a b] c]. reflexivity.
       - rewrite <- Hr. cbn. now rewrite app_nil_r. }
     rewrite Er. destruct (ring_pure mk (rlist k)) as [[mk1 rt] trc]. cbn [bind].
     assert (Emt : match trc with [] => mt | _ :: _ => (k, trc) :: mt end = mt_push k trc mt).
